@@ -32,6 +32,7 @@ type ctScript struct {
 	WaitFail      bool  `json:"wait_fail,omitempty"`
 	Code          int64 `json:"code"`
 	StartFail     bool  `json:"start_fail,omitempty"`
+	WaitDelayMs   int   `json:"wait_delay_ms,omitempty"`   // VirtualizationWait blocks this long: the workload is still running
 	CreateDelayMs int   `json:"create_delay_ms,omitempty"` // VirtualizationCreate blocks this long (ignoring its context)
 }
 
@@ -174,6 +175,9 @@ func (e *scriptEngine) VirtualizationWait(ctx context.Context, id, state string)
 		e.sh.onCall("wait")
 	}
 	sc := e.sh.scriptOf(id)
+	if sc.WaitDelayMs > 0 {
+		time.Sleep(time.Duration(sc.WaitDelayMs) * time.Millisecond)
+	}
 	r, err := e.FakeEngine.VirtualizationWait(ctx, id, state)
 	if err != nil {
 		return nil, err
